@@ -175,7 +175,12 @@ func (s *gridScreen) renderLineANSI(y int) string {
 
 		for x < len(line) && styles[x] == currentStyle {
 			if line[x] != 0 {
-				buf.WriteRune(line[x])
+				// the cell's whole text: marks merged into the cell are part of it
+				if t := s.cellText[y][x]; t != "" {
+					buf.WriteString(t)
+				} else {
+					buf.WriteRune(line[x])
+				}
 			}
 			x++
 		}
